@@ -7,6 +7,7 @@ and faults are dictated by a plan (plain JSON).  SimFS is an in-memory file
 namespace and ``fake_open`` a drop-in for ``builtins.open`` that is installed
 as the module attribute ``sqlparse.cli.open``.
 """
+import bisect
 import errno
 import io
 import os
@@ -65,7 +66,7 @@ class SimRaw(io.RawIOBase):
         self._chan = chan
         self._nread = 0
         self.name = name
-        self._multibyte = plan.get('mb_offsets') or ()
+        self._multibyte = frozenset(plan.get('mb_offsets') or ())
 
     def readable(self):
         return True
@@ -113,10 +114,9 @@ class SimRaw(io.RawIOBase):
                 'some_data' if pos > 0 else 'no_data'))
             raise OSError(self._errno, 'simulated read error')
         end = min(len(self._data), pos + len(b))
-        for c in self._cuts:
-            if pos < c < end:
-                end = c
-                break
+        i = bisect.bisect_right(self._cuts, pos)
+        if i < len(self._cuts) and self._cuts[i] < end:
+            end = self._cuts[i]
         if self._fail_at is not None and pos < self._fail_at < end:
             end = self._fail_at
         n = end - pos
@@ -130,6 +130,68 @@ class SimRaw(io.RawIOBase):
         if self._nread == 3:
             ch.probe('three_or_more_raw_reads')
         return n
+
+
+class SimTextStream(io.TextIOBase):
+    """A hand-written text stream (not a TextIOWrapper): read(n) returns *at
+    most* n characters and may stop short at the planned cut offsets, as the
+    io documentation allows; read() / read(-1) returns everything.
+
+    plan: {"cuts": [character offsets], "fail_at": char offset or null,
+           "errno": errno}
+    """
+
+    def __init__(self, text, plan, chan, name='<simtext>'):
+        super().__init__()
+        self._text = text
+        self._pos = 0
+        self._cuts = sorted(set(plan.get('cuts') or []))
+        self._fail_at = plan.get('fail_at')
+        self._errno = plan.get('errno') or errno.EIO
+        self._chan = chan
+        self.name = name
+
+    def readable(self):
+        return True
+
+    def _take(self, end):
+        ch = self._chan
+        pos = self._pos
+        if self._fail_at is not None and end > self._fail_at:
+            if pos >= self._fail_at:
+                ch.ev('tread-fail')
+                ch.fire('read_error_after_%s' % (
+                    'some_data' if pos > 0 else 'no_data'))
+                raise OSError(self._errno, 'simulated read error')
+            end = self._fail_at
+        out = self._text[pos:end]
+        self._pos = end
+        ch.ev('tread', len(out))
+        if out and end < len(self._text):
+            ch.probe('short_text_read')
+        return out
+
+    def read(self, size=-1):
+        n = len(self._text)
+        if size is None or size < 0:
+            if self._fail_at is not None and self._fail_at < n:
+                # reading everything runs into the device error
+                self._pos = max(self._pos, self._fail_at)
+                return self._take(n)
+            return self._take(n)
+        end = min(n, self._pos + size)
+        i = bisect.bisect_right(self._cuts, self._pos)
+        if i < len(self._cuts) and self._cuts[i] < end:
+            end = self._cuts[i]
+        return self._take(end)
+
+    def readline(self, size=-1):
+        n = len(self._text)
+        i = self._text.find('\n', self._pos)
+        end = n if i < 0 else i + 1
+        if size is not None and size >= 0:
+            end = min(end, self._pos + size)
+        return self._take(end)
 
 
 class SimSink(io.RawIOBase):
